@@ -703,7 +703,22 @@ for (int n = 0; n < count; n++)
 }
 #endif
 
+  // def_param_stack_ptr[] has MAX_NESTED_MACROS + 1 entries and the expanded
+  // text must start inside def_param_stack_data[].
+  if (asm_context->def_param_stack_count >= MAX_NESTED_MACROS)
+  {
+    print_error(asm_context, "Macros nested too deep");
+    asm_context->error = 1;
+    return nullptr;
+  }
+
   ptr = asm_context->def_param_stack_ptr[asm_context->def_param_stack_count];
+
+  if (ptr >= PARAM_STACK_LEN)
+  {
+    print_error_internal(nullptr, __FILE__, __LINE__);
+    exit(1);
+  }
 
   while (*define != 0)
   {
